@@ -78,7 +78,7 @@ def tla_val(v) -> str:
 _RE_STATES = re.compile(r"(\d+) states generated, (\d+) distinct states found, (\d+) states left on queue")
 _RE_DEPTH = re.compile(r"The depth of the complete state graph search is (\d+)")
 _RE_INV = re.compile(r"Error: Invariant (\S+) is violated")
-_RE_PROP = re.compile(r"Error: (?:Action property|Temporal properties|Property) ?(\S*)")
+_RE_PROP = re.compile(r"Error: (?:Action property|Temporal properties|Temporal property|Property) ?(\S*)")
 _RE_COV = re.compile(r"^<(\w+) line (\d+), col \d+ to line \d+, col \d+ of module (\w+)(?: \([\d ]+\))?>: (\d+):(\d+)", re.M)
 
 
